@@ -7,6 +7,8 @@ NOTE = ("verdicts are z3 4.8.12 / z3 5.1.0 / cvc5 1.0 answers over the symgo SSA
         "every bound (lengths, unwinding, allocation, shapes) is listed per obligation in the evidence and checked, not assumed; "
         "translator validated per run by replaying reachability witnesses natively and in concrete mode; ")
 CLAIMED = {
+ "C02": ("one inductive step of the commit frontier from an arbitrary valid pre-state: the precommit ring buffer is a FIFO; mayCommit writes commit-log entries only at committedTxID*entrySize and moves the frontier forward exactly to the allowance; DiscardPrecommittedTxsSince never touches committed ids, the commit log or the tx log; AllowCommitUpto is monotone and bounded by the precommit frontier",
+         "sequential single steps only: no interleavings of concurrent committers, no restart, no chunk rotation; logs are in-memory appendables; watcher hubs and the hash tree are recorder stubs; the Alh chaining itself is decided under C01/C09", "DESIGN.md §4 C02"),
  "C18": ("the permission decision kernel: getDBFromCtx, HasPermissionForMethod, IsMaintenanceMethod and User.WhichPermission executed for every method name of the permission table crossed with every option combination, database selection, sysadmin flag and every 32-bit permission code: a database is handed out only when the reviewed classification allows it",
          "session/token validation is a stub returning a symbolic (database, user) or an error; which name each RPC handler passes to the kernel, session lifecycle and the pgsql front-end are outside the claim; the classification table in the harness is the oracle", "DESIGN.md §4 C18"),
  "C07": ("export/replicate framing: ReplicateTx(ExportTx(tx)) hands precommit the same header and entry list for every symbolic transaction within the size bounds (headers v0/v1, all metadata combinations, values present or truncated)",
